@@ -312,7 +312,9 @@ NeverSkips == \A i \in DOMAIN res : res[i].skips = <<>>
 Emit == (Idle /\ EmitLen > 0 /\ Len(hist) = EmitLen) => PrintT(<<"CASE", ToJson([hist |-> hist, res |-> res])>>)
 
 NoDevs == {}
-RealDevs == {"builder_leak", "realized_sticky", "global_array_aliased"}
+\* "builder_leak" was real on the pinned tree and is fixed in /repo (fix: pattern_builder left the global builder swapped ...)
+RealDevs == {"realized_sticky", "global_array_aliased"}
+PinnedDevs == {"builder_leak", "realized_sticky", "global_array_aliased"}
 SeedDevs == {"set_order_leaks"}
 RegressionDevs == {"proto_writes_function", "refop_cache_unversioned"}
 AllOps == DOMAIN StaticCat
